@@ -105,6 +105,8 @@ def tails(r):
         {"t": "trunc", "k": r.choice([1, 7, 64, 100, 513]), "g": g(), "seed": r.randrange(1 << 30)},
         {"t": "raw", "g": g(), "seed": r.randrange(1 << 30)},
         {"t": "extra", "k": r.choice([1, 2, 3, 5]), "g": g(), "seed": r.randrange(1 << 30)},
+        {"t": r.choice(["regrow", "regrow_push"]), "k": r.choice([1, 5, 63, 64, 65, 130, 200]), "g": g(),
+         "seed": r.randrange(1 << 30)},
     ]
 
 
